@@ -4,6 +4,7 @@ package c08
 import (
 	"os"
 	"testing"
+	"verifharness/internal/watchdog"
 
 	"pgregory.net/rapid"
 
@@ -23,33 +24,33 @@ func TestC08MemoryEqualsRestart(t *testing.T) {
 		maxSteps = 50
 	}
 	rapid.Check(t, func(t *rapid.T) {
-		c := g.Begin()
-		defer c.End()
-		m := mgrsim.New(t, "C08", c)
-		defer m.Close()
-		rolledBackThenCommitted := false
-		lastRB := 0
-		m.Run(t, weights, 5, maxSteps, 30, func(op string) {
-			// a restart is considered at every commit boundary
-			m.CheckFresh("after " + op)
-			if m.N["rolled-back-issue"] > 0 && m.N["issued"] > lastRB {
-				rolledBackThenCommitted = true
+		watchdog.Case(t, "C08", g, func(c *evid.Case) {
+			m := mgrsim.New(t, "C08", c)
+			defer m.Close()
+			rolledBackThenCommitted := false
+			lastRB := 0
+			m.Run(t, weights, 5, maxSteps, 30, func(op string) {
+				// a restart is considered at every commit boundary
+				m.CheckFresh("after " + op)
+				if m.N["rolled-back-issue"] > 0 && m.N["issued"] > lastRB {
+					rolledBackThenCommitted = true
+				}
+				if m.N["rolled-back-issue"] == 0 {
+					lastRB = m.N["issued"]
+				}
+			})
+			for _, k := range []string{"rolled-back-issue", "rename", "mark-used", "restart", "imported-account", "new-account", "passphrase-change",
+				"extended", "import-key", "import-script", "custom-scope", "fresh-compare"} {
+				if m.N[k] > 0 {
+					c.Class(k)
+				}
 			}
-			if m.N["rolled-back-issue"] == 0 {
-				lastRB = m.N["issued"]
+			if rolledBackThenCommitted {
+				c.Class("rolled-back-issue-followed-by-committed-issue")
+			}
+			if rolledBackThenCommitted || ((m.N["rename"] > 0 || m.N["mark-used"] > 0) && m.N["lookup"] > 0) {
+				c.NonTrivial()
 			}
 		})
-		for _, k := range []string{"rolled-back-issue", "rename", "mark-used", "restart", "imported-account", "new-account", "passphrase-change",
-			"extended", "import-key", "import-script", "custom-scope", "fresh-compare"} {
-			if m.N[k] > 0 {
-				c.Class(k)
-			}
-		}
-		if rolledBackThenCommitted {
-			c.Class("rolled-back-issue-followed-by-committed-issue")
-		}
-		if rolledBackThenCommitted || ((m.N["rename"] > 0 || m.N["mark-used"] > 0) && m.N["lookup"] > 0) {
-			c.NonTrivial()
-		}
 	})
 }
